@@ -181,6 +181,31 @@ def judge(ctx, t, v, annot=None, spelled_default=False):
         ctx.samples.append({'type': T.show(t), 'readable': P.render(v, t, 'readable'), 'optimized': P.render(v, t, 'optimized')})
 
 
+def judge_big_map(ctx, t, v):
+    """Storable types holding big_map literals: rendered with their contents (lazy_diff=True, what origination and run_code use)
+    in the three modes and read back."""
+    from rv.core.lockstep import norm_value
+    lit = P.render(v, t, 'readable')
+    case = {'type_expr': T.to_micheline(t), 'value': lit, 'lazy_diff': True}
+    try:
+        cls = D.mk_type(t)
+        obj = cls.from_micheline_value(lit)
+    except Exception as e:
+        return ctx.violation('C11|cannot-build-value|%s|big_map' % type(e).__name__, repr(e)[:300], case)
+    for mode in MODES:
+        ctx.count('roundtrips')
+        ctx.count('big_map_roundtrips')
+        ctx.case((T.show(t), repr(v), mode, 'lazy'), nontrivial=True)
+        try:
+            r = obj.to_micheline_value(mode=mode, lazy_diff=True)
+            back = X.value_of(cls.from_micheline_value(r))
+        except Exception as e:
+            ctx.violation('C11|render-raises|%s|%s|big_map-literal' % (mode, type(e).__name__), repr(e)[:300], dict(case, mode=mode))
+            continue
+        if norm_value(back, t) != norm_value(v, t):
+            ctx.violation('C11|roundtrip-differs|%s|big_map-literal' % mode, 'got %r want %r rendering=%r' % (back, v, r), dict(case, mode=mode))
+
+
 def run(ctx):
     rng = ctx.rng
     n = ctx.pick(3000, 200000) // ctx.nshards
@@ -222,6 +247,15 @@ def run(ctx):
                         v = tv if tt[0] == 'ticket' else (('Some', tv) if tt[0] == 'option' else (9, tv))
                         ctx.count('ticket_values')
                         judge(ctx, tt, v)
+    # big_map literals wherever a storage may hold them
+    if ctx.mine(1):
+        for kt, vt in ((T.NAT, T.STRING), (T.STRING, T.pair(T.NAT, T.TIMESTAMP)), (T.ADDRESS, T.NAT)):
+            bm = T.big_map(kt, vt)
+            for items in ([], [(G.gen_value(rng, kt, 1), G.gen_value(rng, vt, 1))]):
+                for tt, vv in ((bm, items), (T.pair(bm, T.NAT), (items, 7)), (T.pair(T.NAT, bm), (7, items)), (T.option(bm), ('Some', items)), (T.option(bm), None),
+                               (T.or_(bm, T.UNIT), ('L', items)), (T.or_(T.UNIT, bm), ('R', items)), (T.pair(T.option(bm), T.or_(T.NAT, bm)), (('Some', items), ('R', items))),
+                               (T.option(T.pair(T.NAT, bm)), ('Some', (1, items)))):
+                    judge_big_map(ctx, tt, vv)
     # values with the shapes real contracts use: recorded arguments and storage parts of the mainnet corpus
     from rv.gen import corpus as C
     for k, (label, texpr, t, v, src) in enumerate(C.typed_values()):
@@ -234,6 +268,9 @@ def run(ctx):
 
 
 def replay(ctx, case):
+    if case.get('lazy_diff'):
+        t = T.from_micheline(case['type_expr'])
+        return judge_big_map(ctx, t, P.parse(case['value'], t))
     t = T.from_micheline(case['type_expr'])
     v = P.parse(case['value'], t)
     judge(ctx, t, v)
